@@ -77,6 +77,13 @@ def scenarios(rep, tier, seed):
         if not K.materialise(scn):
             continue
         scns.append(scn)
+    # KNN-supervised on a pre-computed matrix: training, validation (and each candidate's scoring) address rows through index arrays
+    rng2 = random.Random(seed * 1000003 + 1600)
+    for i in range(500 if thorough else 80):
+        scn = K.knn_pre_scenario(rng2, metric=rng2.choice(["euclidean", "manhattan", "log_squared_euclidean"]), lattice=(i % 3 == 0))
+        if scn:
+            scn["Q"] = []
+            scns.append(scn)
     return scns
 
 
@@ -137,7 +144,7 @@ def run(tier, seed):
     c13.design(rep, tier, table=DESIGN, module="KSelect")
     H.import_opfython()
     run_all(rep, scenarios(rep, tier, seed), "main")
-    rep.cov["rule"] = "criterion values observed by wrapping opf_accuracy / the cut routine from outside; max_k 1..6, min_k 1..max_k; small and adversarial validation sets (equal and zero accuracies); all rank matrices n=4 plus float/lattice data"
+    rep.cov["rule"] = "criterion values observed by wrapping opf_accuracy / the cut routine from outside; max_k 1..6, min_k 1..max_k; small and adversarial validation sets (equal and zero accuracies); all rank matrices n=4 plus float/lattice data, KNN-supervised also on pre-computed matrices with permuted training and sampled validation index arrays"
     rep.assumptions = ["TLC", "criterion values ranked with rank 0 reserved for exactly 0.0", "fits whose cut is NaN (zero density constant on duplicate-only neighbourhoods) are out of domain and counted as skipped", "k ranges with max_k <= n-1"]
     return rep.finish()
 
